@@ -376,6 +376,18 @@ fn run_case(case: &[String]) -> String {
             };
             format!("P={}\tK={}\tR={}", hex(m.to_string().as_bytes()), k.map(|i| i.to_string()).unwrap_or("-".into()), back)
         }
+        "host" => {
+            // a host text behind "sip:": which alternative of Host::parse takes it, and how much of it
+            let text = unhx(&case[3]);
+            match SipUri::from_str(&format!("sip:{}", text)) {
+                Ok(u) => match u.host_port.host {
+                    Host::IP4(a) => format!("IP4:{}:{}", a, u.host_port.port.map(|p| p.to_string()).unwrap_or("-".into())),
+                    Host::IP6(_) => "IP6".into(),
+                    Host::Name(n) => format!("NAME:{}", hx(&n)),
+                },
+                Err(_) => "ERR".into(),
+            }
+        }
         "typed" => run_typed(case[3].as_str(), case[4].as_str()),
         "num" => {
             // kind and decimal arguments; printed through Headers, parsed back through Headers
